@@ -97,3 +97,15 @@ func (g *groupBy) Next() interface{} {
 
 	return v.Interface()
 }
+
+// Format keeps the iterator's address out of anything that prints it with
+// package fmt: the address differs from one execution to the next.
+func (g *groupBy) Format(f fmt.State, verb rune) {
+	fmt.Fprintf(f, "groupBy(%d of %d groups left)", len(g.group)-g.pos, len(g.group))
+}
+
+// Format keeps the iterator's address out of anything that prints it with
+// package fmt.
+func (r *ranger) Format(f fmt.State, verb rune) {
+	fmt.Fprintf(f, "range(%d..%d)", r.pos+1, r.end)
+}
